@@ -763,6 +763,75 @@ func checkExpiredAbsent(r *Report, f *ssa.Function) {
 				t2, f2, b2, ok := FieldOf(c.Call.Args[0])
 				return ok && t2 == "StorageItem" && f2 == "Expiration" && sameItem(b2, base)
 			})
+			if skipped {
+				// the item read may be a join of "the stored entry, found live" and "a fresh entry made here":
+				// then each stored-entry edge of the join must be entered only where the entry's expiry was
+				// evaluated (read through the found-flag the branch tests, not along every CFG path)
+				if ph, isPhi := stripValue(base).(*ssa.Phi); isPhi {
+					okAll := true
+					for i, e := range ph.Edges {
+						if IsFresh(e) {
+							continue
+						}
+						pred := ph.Block().Preds[i]
+						facts := Facts(pred)
+						if len(pred.Instrs) > 0 {
+							if iff, ok := pred.Instrs[len(pred.Instrs)-1].(*ssa.If); ok && pred.Succs[0] != pred.Succs[1] {
+								for si, sb := range pred.Succs {
+									if sb == ph.Block() {
+										c, pol := normCond(iff.Cond, si == 0)
+										facts = append(facts, expandPhiFacts([]Fact{{Cond: c, Pol: pol, If: iff}})...)
+									}
+								}
+							}
+						}
+						testedIn := func(fs []Fact) bool {
+							for _, ft := range fs {
+								c, isCall := ft.Cond.(*ssa.Call)
+								if !isCall {
+									continue
+								}
+								if it, _, isPred := expiryPredicate(c, "StorageItem", "Expiration", 0); isPred && sameItem(it, e) {
+									return true
+								}
+								if CalleeOf(c).Is("time:Time.IsZero", "time:Time.After", "time:Time.Before") && len(c.Call.Args) > 0 {
+									for _, a := range c.Call.Args {
+										if t2, f2, b2, ok := FieldOf(a); ok && t2 == "StorageItem" && f2 == "Expiration" && sameItem(b2, e) {
+											return true
+										}
+									}
+								}
+							}
+							return false
+						}
+						tested := testedIn(facts)
+						if !tested {
+							// the branch tests a found-flag that is itself a join: every way the flag can be true
+							// must have evaluated the expiry (in whatever form: "never expires" or "not yet")
+							for _, ft := range facts {
+								if fph, isP := ft.Cond.(*ssa.Phi); isP {
+									per := phiPredFacts(fph, ft.Pol)
+									all := len(per) > 0
+									for _, pf := range per {
+										if !testedIn(pf) {
+											all = false
+										}
+									}
+									if all {
+										tested = true
+									}
+								}
+							}
+						}
+						if !tested {
+							okAll = false
+						}
+					}
+					if okAll {
+						skipped = false
+					}
+				}
+			}
 			r.Ob("R-C13-5", in.Pos(), !skipped,
 				"a stored value is read on a path that never evaluated the entry's expiry (an expired entry would be served as live)",
 				fn, "value-read-after-expiry-test")
